@@ -27,6 +27,11 @@ func frameOwner(stack []string) string {
 			continue
 		}
 		rest := strings.TrimPrefix(fn, modPrefix)
+		// the shims standing in for sync and sync/atomic perform the program's own lock and atomic operations: the
+		// access belongs to their caller (a lock word read by reflection races with the lock operation itself)
+		if strings.HasPrefix(rest, "internal/verifrt/vsync") || strings.HasPrefix(rest, "internal/verifrt/vatomic") {
+			continue
+		}
 		if strings.HasPrefix(rest, "internal/verifrt") {
 			return ""
 		}
